@@ -16,8 +16,8 @@ CONSTANTS Mws, Scenarios, AEs, MaxStack
 \* does the client accept gzip?  (quality of "gzip", or of "*", greater than zero)
 AcceptsGzip(ae) == ae \in {"gzip", "star", "deflate_gzip_q05", "gzip_q1_identity_q0"}
 \* response bodies that are worth compressing (large and compressible); gzip may still decline others
-Compressible(s) == s \in {"ok200big", "ctxbig"}
-StatusOf(s) == CASE s \in {"ok200", "ok200big", "ok200random", "ok200empty", "ctx", "ctxbig", "head"} -> 200
+Compressible(s) == s \in {"ok200big", "ctxbig", "ok200vary"}
+StatusOf(s) == CASE s \in {"ok200vary", "ok200prof", "ok200", "ok200big", "ok200random", "ok200empty", "ctx", "ctxbig", "head"} -> 200
                  [] s = "redirect" -> 302
                  [] s \in {"raise404", "ret404", "nb404", "unknown404"} -> 404
                  [] s = "wrong405" -> 405 [] s = "raise503" -> 503 [] s = "ret418" -> 418 [] s = "uncaught500" -> 500
